@@ -51,6 +51,25 @@ def schedule_world(seed, strategy, scratch, **kw):
     shutil.rmtree(d, ignore_errors=True)
     os.makedirs(d)
     db = mvccload.make_db('file', d, FSM)
+    # optional: the fault_k-th mutating raw operation on the .pack file fails (EIO) while committers run
+    fault_k = kw.pop('fault_k', None)
+    fired = []
+    if fault_k:
+        import errno
+        from zv import recfs
+        cnt = [0]
+
+        def fault(op):
+            # (writes only: a failing rename of the .pack file is the recorded two-rename finding, witnessed by `crafted`)
+            if op[0] in ('write', 'create') and str(op[1]).endswith('.pack'):
+                cnt[0] += 1
+                if cnt[0] == fault_k:
+                    fired.append(op[0])
+                    return ('raise', errno.EIO)
+            return None
+        recfs.LOG.ops = []
+        recfs.LOG.enabled = True          # (not reset(): the scheduler's I/O yield hook must stay)
+        recfs.LOG.fault = fault
     NC = mvccload.NCELL
     ptid = db.lastTransaction()
     ptime = TimeStamp(ptid).timeTime() + 0.0001
@@ -141,12 +160,18 @@ def schedule_world(seed, strategy, scratch, **kw):
     s.spawn('r', reader)
     s.spawn('p', packer('p'))
     s.spawn('p2', packer('p2'))
-    ok = s.run(60)
+    try:
+        ok = s.run(60)
+    finally:
+        if fault_k:
+            recfs.LOG.fault = None
+            recfs.LOG.enabled = False
+            recfs.LOG.ops = []
     fails = s.failures()
     if not ok and not fails:
         fails.append(('watchdog', 60))
     out = {'viol': [], 'sched': fails, 'pack': pres, 'switches': s.switches, 'digest': s.digest(), 'during': 0, 'ok_commits': len(oks),
-           'locs': dict(s.locs)}
+           'locs': dict(s.locs), 'fault_fired': bool(fired)}
     if fails:
         return out
     viol = out['viol']
@@ -155,9 +180,19 @@ def schedule_world(seed, strategy, scratch, **kw):
     good = [p for p in pres if p.endswith(':ok')]
     refused = [p for p in pres if 'Already packing' in p]
     other = [p for p in pres if p not in good and p not in refused]
+    if fired:
+        # the pack that met the fault fails with that error and nothing else; everybody else goes on undisturbed
+        injected = [p for p in other if 'injected fault' in p]
+        other = [p for p in other if p not in injected]
+        # (no injected failure reported: the failed write belonged to a temp file that is discarded anyway - no verdict)
+        out['fault_reported'] = bool(injected)
+        if db.storage._pack_is_in_progress:
+            viol.append(('pack-flag-left-set-after-failed-pack', pres))
+        if db.storage._commit_lock.locked():
+            viol.append(('commit-lock-held-after-failed-pack', pres))
     if other:
         viol.append(('pack-raises-unexpectedly', other))
-    if not good:
+    if not good and not fired:
         viol.append(('no-pack-completed', pres))
     out['refused'] = len(refused)
     ps, pe = pack_window.get('p_start', 0), pack_window.get('p_end', 0)
@@ -682,15 +717,21 @@ def run_shard(params):
                     sh.count('locations_parked')
                 else:
                     kw['pct_depth'] = 2
+            if mode != 'park' and i % 3 == 0:
+                kw['fault_k'] = rnd.randrange(1, 40)
             case = {'part': 'schedule', 'seed': seed, 'strategy': strategy, 'kw': {k: (list(v) if isinstance(v, tuple) else v) for k, v in kw.items()}}
             try:
-                out = schedule_world(seed, strategy, sh.scratch, **kw)
+                out = schedule_world(seed, strategy, sh.scratch, **dict(kw))
             except Exception:
                 import traceback
                 sh.violation('c08:schedule:harness-or-world-raises', {'exc': traceback.format_exc()[-600:]}, case)
                 sh.case(None)
                 continue
             sh.count('schedules')
+            if out.get('fault_fired'):
+                sh.count('schedules_with_io_fault_in_concurrent_pack')
+                if out.get('fault_reported'):
+                    sh.count('concurrent_packs_failed_with_the_injected_error')
             sh.count('context_switches', out['switches'])
             sh.count('ok_commits', out['ok_commits'])
             sh.count('second_packs_refused', out.get('refused', 0))
